@@ -16,7 +16,7 @@ def tail(p):
         return ls[-1] if ls else ''
     except OSError:
         return ''
-for d in sorted(glob.glob('/verif/seeded/*[bc]')):
+for d in sorted(glob.glob('/verif/seeded/*[bcd]')):
     sid = os.path.basename(d)
     notes = open(d + '/notes.md').read() if os.path.exists(d + '/notes.md') else ''
     t = glob.glob(d + '/*_test.go')[0]
@@ -24,7 +24,7 @@ for d in sorted(glob.glob('/verif/seeded/*[bc]')):
     files = re.findall(r'^\+\+\+ b/(\S+)', open(d + '/patch.diff').read(), re.M)
     props, outcome = last.get(sid, ([sid[:-1]], 'not run'))
     meta = {
-        'seed': sid, 'property': sid[:-1], 'round': 2 if sid.endswith('b') else 3,
+        'seed': sid, 'property': sid[:-1], 'round': {'b': 2, 'c': 3, 'd': 4}[sid[-1]],
         'source': 'fresh sub-agent given only the property text, a hint which mechanisms the earlier seeds for this property already used, and a scratch worktree of /repo outside /repo and /verif with the contract files removed; nothing from /verif. Confirmed by me (tools/confirm_seed2.sh).',
         'files_changed': files, 'patch': 'patch.diff',
         'change': section(notes, 'Change'), 'clause_broken': section(notes, 'Property clause broken'),
@@ -32,7 +32,7 @@ for d in sorted(glob.glob('/verif/seeded/*[bc]')):
         'demonstration': {'test_file': os.path.basename(t), 'test': run, 'package_dir': open(d + '/pkgdir').read().strip(),
                           'without_change': tail(d + '/run_without.log'), 'with_change': tail(d + '/run_with.log'),
                           'existing_tests_with_change': tail(d + '/existing_tests.log')},
-        'what_i_ran': ['tools/confirm_seed2.sh %s (round 3: with /tmp/seed3 c): demo passes without the change, fails with it; the touched packages\' own tests pass with it; the patch applies to /repo' % sid[:-1],
+        'what_i_ran': ['tools/confirm_seed2.sh %s (later rounds: with the round's scratch root and suffix): demo passes without the change, fails with it; the touched packages\' own tests pass with it; the patch applies to /repo' % sid[:-1],
                        'DEMO=1 tools/try_seed.sh %s %s: git -C /repo apply, demo on the changed tree (fails), quick checks, git checkout -- .' % (sid, ' '.join(props))],
         'checks_run': props, 'outcome': outcome,
     }
